@@ -194,6 +194,48 @@ pub fn submission_starvation(prop: &str, cx: &Cx, rep: &mut Report) {
     }
 }
 
+/// L1: an actor that has accepted a stop request (from outside or from its own context, from whichever callback) is
+/// never idle and alive at a quiescent point afterwards - it is on its way out, not waiting for the next message.
+/// Returns (tag, stamp of the request's return, quiescent stamp).
+pub fn idle_after_accepted_stop(cx: &Cx) -> Vec<(u32, u64, u64)> {
+    let ix = cx.ix;
+    let mut out = vec![];
+    if cx.mt {
+        return out;
+    }
+    let fx = facts::facts(cx);
+    for af in fx.values() {
+        if af.failed() {
+            continue;
+        }
+        let Some(acc) = af.first_accept_r() else { continue };
+        // a stop accepted while the final stopped() is already running is moot
+        if af.t_final().map(|t| t.0 < acc).unwrap_or(false) && af.task_end.is_some() {
+            continue;
+        }
+        for q in ix.quiescent.iter().filter(|q| **q > acc) {
+            if af.task_end.map(|e| e.0 < *q).unwrap_or(false) {
+                break;
+            }
+            let busy = ix.actors[&af.task].timeline.iter().any(|t| match t {
+                crate::index::TL::Inv(j) => {
+                    let inv = &ix.invs[*j];
+                    inv.i < *q && inv.out.map(|o| o.0 > *q).unwrap_or(inv.abandoned.map(|a| a.0 > *q).unwrap_or(true))
+                }
+                crate::index::TL::Cb(j) => {
+                    let cb = &ix.cbs[*j];
+                    cb.i < *q && cb.o.map(|o| o.0 > *q).unwrap_or(true)
+                }
+            });
+            if !busy {
+                out.push((af.tag, acc, *q));
+                break;
+            }
+        }
+    }
+    out
+}
+
 pub fn stop_starvation(prop: &str, cx: &Cx, rep: &mut Report) {
     use crate::log::{K, Mk, OpK, Res};
     let ix = cx.ix;
